@@ -288,6 +288,12 @@ class Real:
             raise KeyError(name)
         delattr(s, name)
 
+    def op_copy_cells(self, src, name, dst, new):
+        self.space(src).cells[name].copy(self.space(dst), new)
+
+    def op_copy_space(self, src, dstparent, new):
+        self.space(src).copy(self.space(dstparent) if dstparent else self.m, new)
+
     def op_rename_cells(self, path, name, new):
         self.space(path).cells[name].rename(new)
 
@@ -522,6 +528,48 @@ def _static_prefix(sid):
     return tuple(out)
 
 
+def _copy_cells(rm, source, name, target, new):
+    """Cells.copy: the effective definition and the assigned values; the copy is a plain (cached) cells"""
+    c = rm.find_cells(source, name)[1].copy()
+    c.name = new
+    c.cached = True
+    c.allow_none = None
+    target.cells[new] = c
+    ins = rm.inputs.get((source.path, name))
+    if ins:
+        rm.inputs[(target.path, new)] = dict(ins)
+
+
+def _copy_space(rm, source, parent, new):
+    """UserSpace.copy: parameter formula, doc, all references as the source sees them (they become defined, auto
+    mode), the cells DEFINED in the source with their inputs, child spaces recursively; no bases"""
+    import copy as _copy
+    t = R.RSpace(new, parent)
+    if parent is None:
+        rm.spaces[new] = t
+    else:
+        parent.children[new] = t
+    t.formula = _copy.deepcopy(source.formula)
+    t.doc = source.doc
+    for n in rm.ref_names(source):
+        definer, ref = rm.find_ref(source, n)
+        v = ref.value
+        if isinstance(v, R.Obj) and ref.mode != "absolute" and definer is not source:
+            dp = definer.path
+            if v.path == dp:
+                v = R.Obj(source.path)
+            elif v.path[:-1] == dp and rm.find_cells(definer, v.path[-1]) is not None and not rm.has_space(v.path):
+                v = R.Obj(source.path + (v.path[-1],))
+        t.refs[n] = R.RRef(v, "auto")
+    for n in list(source.cells):
+        _copy_cells(rm, source, n, t, n)
+        t.cells[n].cached = True
+    for cn, ch in list(source.children.items()):
+        if ch is not t:
+            _copy_space(rm, ch, t, cn)
+    return t
+
+
 def apply_ref(rm, op):
     """Apply an accepted operation to the reference model."""
     k = op[0]
@@ -593,6 +641,15 @@ def apply_ref(rm, op):
     elif k == "del_cells":
         s = rm.space(tuple(a[0]))
         del s.cells[a[1]]
+    elif k == "copy_cells":
+        src, name, dst, new = tuple(a[0]), a[1], tuple(a[2]), a[3]
+        _copy_cells(rm, rm.space(src), name, rm.space(dst), new)
+    elif k == "copy_space":
+        src, dparent, new = tuple(a[0]), tuple(a[1]), a[2]
+        source = rm.space(src)
+        if dparent and dparent[:len(src)] == src:
+            raise ValueError("cannot copy to child")
+        _copy_space(rm, source, rm.space(dparent) if dparent else None, new)
     elif k == "rename_cells":
         s = rm.space(tuple(a[0]))
         old, new = a[1], a[2]
@@ -680,6 +737,6 @@ VALUE_EDIT_OPS = {"clear_at", "clear_all", "clear_all_space", "clear_all_model",
 
 EDIT_OPS = {
     "new_space", "del_space", "rename_space", "add_bases", "remove_bases", "set_formula",
-    "new_cells", "set_cells_formula", "del_cells", "rename_cells", "set_cached",
+    "new_cells", "set_cells_formula", "del_cells", "rename_cells", "set_cached", "copy_cells", "copy_space",
     "set_allow_none", "set_ref", "del_ref", "set_value", "arm", "recalc", "set_doc",
 }
